@@ -64,6 +64,9 @@ func (fc *FnCtx) adoptEffects(st, sub *State) {
 	if sub.cheap.S != st.cheap.S {
 		st.cheap = fc.define(ite(g, sub.cheap, st.cheap), "C")
 	}
+	if sub.lockSnap != st.lockSnap {
+		st.lockSnap = nil
+	}
 	if sub.nextR.S != st.nextR.S {
 		st.nextR = fc.define(ite(g, sub.nextR, st.nextR), "nextR")
 	}
@@ -374,7 +377,11 @@ func (fc *FnCtx) execAssign(st *State, x *ast.AssignStmt) {
 		case *ast.TypeAssertExpr:
 			v = fc.evalTypeAssert(st, r, true)
 		case *ast.IndexExpr: // v, ok := m[k]
-			fc.eval(st, r.X)
+			if mv, isM := fc.eval(st, r.X).(VOpaque); isM && fc.lenient && isIntMap(fc.typeOf(r.X)) {
+				k := asInt(fc.eval(st, r.Index))
+				v = VTuple{fc.mapRead(st, mv, k), VBool{fc.mapPresentIn(st.cheap, mv.ID, k)}}
+				break
+			}
 			fc.eval(st, r.Index)
 			if !fc.lenient {
 				panic(unsupported("comma-ok map lookup"))
@@ -722,6 +729,8 @@ func (fc *FnCtx) modified(nodes ...ast.Node) *modSet {
 				} else {
 					ms.unknownWrite = true
 				}
+			} else if isIntMap(fc.typeOf(x.X)) {
+				ms.cells = true // m[k] = v: the entries of an integer map live in the cell heap
 			} else {
 				markLhs(x.X)
 			}
@@ -828,6 +837,10 @@ func (fc *FnCtx) modified(nodes ...ast.Node) *modSet {
 								ms.unknownWrite = true
 							}
 						case "len", "cap", "min", "max", "panic":
+						case "delete", "clear":
+							ms.cells = true // entries of an integer map live in the cell heap
+							ms.heap = true
+							ms.unknownWrite = true
 						default:
 							ms.heap = true
 							ms.unknownWrite = true
